@@ -73,7 +73,7 @@ func C06(c *core.Ctx) {
 		}
 		okRec := true
 		nRec := 0
-		core.Instrs(up, func(in ssa.Instruction) {
+		core.InstrsDeep(up, func(in ssa.Instruction) {
 			if isRec(in) {
 				nRec++
 				h := loopHeader(in.Block())
@@ -113,10 +113,10 @@ func C06(c *core.Ctx) {
 				return 1, -1
 			}}
 		}
-		selfCap := capOf(func(v ssa.Value) bool { return v == r })
+		selfCap := capOf(func(v ssa.Value) bool { return core.Same(v, r) })
 		// the ancestor loop: a phi cursor advanced by .parent
 		var cursor *ssa.Phi
-		core.Instrs(up, func(in ssa.Instruction) {
+		core.InstrsDeep(up, func(in ssa.Instruction) {
 			phi, ok := in.(*ssa.Phi)
 			if !ok {
 				return
@@ -131,12 +131,13 @@ func C06(c *core.Ctx) {
 			c.Viol("R6.2", "ancestor-walk", p.Pos(up.Pos()), "no ancestor walk (cursor advanced through .parent) in updateNexthopsEnc: child-inherit routes of shorter prefixes are not inherited")
 		} else {
 			hdr := cursor.Block()
+			cf := cursor.Parent() // the walk may live in a private helper
 			// whole walk is skipped when the entry itself captures
 			res := core.GateDeep(up, []ssa.Instruction{hdr.Instrs[0]}, neg(selfCap))
 			c.Decide(res.OK && res.PassEdges > 0, "R6.2", "capture-entry-inherits-nothing", p.Pos(up.Pos()), "the ancestor walk is unreachable when the entry holds a capture route", "an entry holding a capture route still inherits routes from shorter prefixes")
 			// only child-inherit routes are appended inside the walk
 			var apps []ssa.Instruction
-			for _, b := range up.Blocks {
+			for _, b := range cf.Blocks {
 				if hh := enclosingLoops(b); containsBlock(hh, hdr) {
 					for _, in := range b.Instrs {
 						if _, ok := isBuiltinCall(in, "append"); ok {
@@ -151,15 +152,15 @@ func C06(c *core.Ctx) {
 			// exit on capture of the cursor, after that ancestor's routes were taken
 			curCap := capOf(func(v ssa.Value) bool { return v == ssa.Value(cursor) })
 			okStop, early := false, false
-			for _, f := range core.EdgeFacts(up, curCap) {
+			for _, f := range core.EdgeFacts(cf, curCap) {
 				if !f.Holds {
 					continue
 				}
 				// the true edge leaves the loop
-				leaves := core.ReachAvoiding(up, f.E.To, map[*ssa.BasicBlock]bool{hdr: true}, nil) == nil
+				leaves := core.ReachAvoiding(cf, f.E.To, map[*ssa.BasicBlock]bool{hdr: true}, nil) == nil
 				// and the test comes after the loop over cursor.routes
 				after := false
-				for _, b := range up.Blocks {
+				for _, b := range cf.Blocks {
 					for _, in := range b.Instrs {
 						if u, ok := in.(*ssa.UnOp); ok && isFieldLoad(u, cursor, "routes") && b.Dominates(f.E.From) && b != f.E.From {
 							after = true
@@ -180,7 +181,7 @@ func C06(c *core.Ctx) {
 		// ---- R6.3 min cost
 		var upd []ssa.Instruction
 		var mapV ssa.Value
-		core.Instrs(up, func(in ssa.Instruction) {
+		core.InstrsDeep(up, func(in ssa.Instruction) {
 			if mu, ok := in.(*ssa.MapUpdate); ok {
 				if _, isMake := core.Strip(mu.Map).(*ssa.MakeMap); isMake {
 					upd = append(upd, in)
@@ -302,7 +303,7 @@ func C06(c *core.Ctx) {
 				return
 			}
 			_, a := core.CallArgs(ci.Common())
-			if len(a) != 1 || a[0] != ssa.Value(rm.Params[1]) {
+			if len(a) != 1 || !core.Same(a[0], rm.Params[1]) {
 				return
 			}
 			if sc == cu {
@@ -312,7 +313,7 @@ func C06(c *core.Ctx) {
 			// wrapper: forwards its own parameter to the worker on every path
 			for _, wc := range core.FindCallsDeep(sc, core.FuncID(cu)) {
 				_, wa := core.CallArgs(wc.Common())
-				if len(wa) == 1 && wa[0] == ssa.Value(sc.Params[1]) && core.MustFollowDeep(sc, core.Point{Block: sc.Blocks[0], Idx: 0}, func(x ssa.Instruction) bool { return x == ssa.Instruction(wc) }, nil).OK {
+				if len(wa) == 1 && core.Same(wa[0], sc.Params[1]) && core.MustFollowDeep(sc, core.Point{Block: sc.Blocks[0], Idx: 0}, func(x ssa.Instruction) bool { return x == ssa.Instruction(wc) }, nil).OK {
 					call = in
 				}
 			}
@@ -326,7 +327,7 @@ func C06(c *core.Ctx) {
 		okRec := false
 		for _, ci := range core.FindCallsDeep(cu, core.FuncID(cu)) {
 			rv, a := core.CallArgs(ci.Common())
-			if rangeComponent(rv, 1, func(v ssa.Value) bool { return isFieldLoad(v, r, "children") }) && a[0] == ssa.Value(cu.Params[1]) {
+			if rangeComponent(rv, 1, func(v ssa.Value) bool { return isFieldLoad(v, r, "children") }) && core.Same(a[0], cu.Params[1]) {
 				h := loopHeader(ci.Block())
 				okRec = h != nil && everyIterationPasses(cu, h, func(x ssa.Instruction) bool { return x == ssa.Instruction(ci) })
 				// the children loop is entered on every path (not behind an early return)
@@ -383,14 +384,14 @@ func C06(c *core.Ctx) {
 				}
 				bx, okx := core.FieldOf(x, field)
 				by, oky := core.FieldOf(y, field)
-				if okx && oky && ((bx == route) != (by == route)) {
+				if okx && oky && (core.Same(bx, route) != core.Same(by, route)) {
 					return core.Iff(op == token.EQL)
 				}
 				return 0, 0
 			}}
 		}
 		var eff []ssa.Instruction
-		core.Instrs(add, func(in ssa.Instruction) {
+		core.InstrsDeep(add, func(in ssa.Instruction) {
 			if fa, _, ok := storeToField(in, "Route", "Cost"); ok {
 				if _, fresh := core.Strip(fa.X).(*ssa.Alloc); !fresh {
 					eff = append(eff, in)
@@ -428,7 +429,7 @@ func ribCleanupWorker(p *core.Prog) *ssa.Function {
 				if x.Op == token.EQL || x.Op == token.NEQ {
 					_, okx := core.FieldOf(x.X, "FaceID")
 					_, oky := core.FieldOf(x.Y, "FaceID")
-					if (okx && x.Y == ssa.Value(fn.Params[1])) || (oky && x.X == ssa.Value(fn.Params[1])) {
+					if (okx && core.Same(x.Y, fn.Params[1])) || (oky && core.Same(x.X, fn.Params[1])) {
 						cmp = true
 					}
 				}
